@@ -108,12 +108,17 @@ Inductive out :=
 | OErr (st : status) (oauth : bool)
 | OPanic.
 
-Inductive hist_input := Hist (clients : list client) (ops : list (nat * bool * gop ptok)).
+(* The token-exchange policy of the storage (TokenExchangeStorage.ValidateTokenExchangeRequest may
+   rewrite the request): does it turn an absent requested type into access_token, does it set a
+   type of its own, does it replace the subject, does it empty the scopes.  refstore's own policy
+   is TEPolicy true None None false. *)
+Record tepolicy := TEPolicy { p_default : bool; p_force : option ttype; p_subject : option string; p_empty : bool }.
+Inductive hist_input := Hist (clients : list client) (pol : tepolicy) (ops : list (nat * bool * gop ptok)).
 
 (* ---------------------------------------------------------------- storage (refstore contract) *)
 
 Record rtok := RTok { r_id : nat; r_client : string; r_sub : string; r_at : nat }.
-Record store := Store { toks : list (nat * trec); rtoks : list rtok }.
+Record store := Store { toks : list (nat * trec); rtoks : list rtok; policy : tepolicy }.
 
 Fixpoint find_tok (n : nat) (l : list (nat * trec)) : option trec :=
   match l with
@@ -138,8 +143,8 @@ Definition live_tok (s : store) (id : sid) : option trec :=
   | _ => None
   end.
 
-Definition drop_at (n : nat) (s : store) := Store (remove_tok n (toks s)) (rtoks s).
-Definition drop_rt (r : rtok) (s : store) := Store (remove_tok (r_at r) (toks s)) (remove_rt (r_id r) (rtoks s)).
+Definition drop_at (n : nat) (s : store) := Store (remove_tok n (toks s)) (rtoks s) (policy s).
+Definition drop_rt (r : rtok) (s : store) := Store (remove_tok (r_at r) (toks s)) (remove_rt (r_id r) (rtoks s)) (policy s).
 
 (* RevokeToken(id, _, client): None = refused *)
 Definition revoke_token (s : store) (id : sid) (caller : string) : option store :=
@@ -158,11 +163,11 @@ Definition revoke_token (s : store) (id : sid) (caller : string) : option store 
 (* TerminateSession(user, client) *)
 Definition terminate (s : store) (user cid : string) : store :=
   Store (filter (fun p => negb (String.eqb (tr_client (snd p)) cid && String.eqb (tr_sub (snd p)) user)) (toks s))
-        (filter (fun x => negb (String.eqb (r_client x) cid && String.eqb (r_sub x) user)) (rtoks s)).
+        (filter (fun x => negb (String.eqb (r_client x) cid && String.eqb (r_sub x) user)) (rtoks s)) (policy s).
 
-Definition add_at (n : nat) (t : trec) (s : store) := Store ((n, t) :: toks s) (rtoks s).
+Definition add_at (n : nat) (t : trec) (s : store) := Store ((n, t) :: toks s) (rtoks s) (policy s).
 Definition add_at_rt (m n : nat) (t : trec) (s : store) :=
-  Store ((n, t) :: toks s) (RTok m (tr_client t) (tr_sub t) n :: rtoks s).
+  Store ((n, t) :: toks s) (RTok m (tr_client t) (tr_sub t) n :: rtoks s) (policy s).
 
 (* ---------------------------------------------------------------- clients, credentials *)
 
@@ -380,6 +385,17 @@ Definition endsession (cl : list client) (r : router) (g : store) (hint : option
 
 Definition drop_scopes (l : list string) := filter (fun x => negb (String.eqb x "drop")) l.
 
+(* what ValidateTokenExchangeRequest leaves in the request *)
+Definition effective_type (pol : tepolicy) (req : ttype) : ttype :=
+  match p_force pol with
+  | Some t => t
+  | None => match req with TAbsent => if p_default pol then TAccess else TAbsent | _ => req end
+  end.
+Definition decided_scopes (pol : tepolicy) (scopes : list string) : list string :=
+  if p_empty pol then [] else drop_scopes scopes.
+Definition decided_subject (pol : tepolicy) (ssub : string) : string :=
+  match p_subject pol with Some x => x | None => ssub end.
+
 Definition exchange (cl : list client) (r : router) (s : st) (c : cred) (subj : tokstr) (styp : ttype)
     (actor : option (tokstr * ttype)) (req : ttype) (scopes aud : list string) : st * out :=
   let (g, nx) := s in
@@ -409,17 +425,18 @@ Definition exchange (cl : list client) (r : router) (s : st) (c : cred) (subj : 
               else if actor_given && negb (x_live g atyp aid) then storage_err
               else if string_in "veto" scopes then storage_err
               else
-                let sc := drop_scopes scopes in
+                let sc := decided_scopes (policy g) scopes in
+                let ssub := decided_subject (policy g) ssub in
                 let t := TRec (c_id k) ssub asub sc aud (c_exp k) in
                 let acc n := if c_jwt k then XJwt (AT n) ssub else XOpaque (AT n) ssub in
-                match req with
-                | TAccess | TAbsent =>
+                match effective_type (policy g) req with      (* CreateTokenExchangeResponse switches on what the storage left *)
+                | TAccess =>
                     ((add_at (nx + 1) t g, nx + 1), OExch TAccess (acc (nx + 1)) NoId false sc (Some t))
                 | TRefresh =>
                     ((add_at_rt (nx + 1) (nx + 2) t g, nx + 2), OExch TRefresh (acc (nx + 2)) (RT (nx + 1)) true sc (Some t))
                 | TId =>
                     (s, OExch TId (XIdTok ssub (c_id k)) NoId false sc None)   (* CreateIDToken keeps the request subject *)
-                | _ => e400          (* F07 fixed: requested jwt is an error *)
+                | _ => e400          (* jwt, a custom type, or no type at all: invalid_request (F07 fixed) *)
                 end
           end
       end end
@@ -448,9 +465,9 @@ Fixpoint state_after (cl : list client) (s : st) (ops : list op) : st :=
   | o :: r => state_after cl (fst (step cl s o)) r
   end.
 
-Definition init : st := (Store [] [], 0).
+Definition init (pol : tepolicy) : st := (Store [] [] pol, 0).
 Definition run_hist (i : hist_input) : list out :=
-  match i with Hist cl ops => run cl init (located ops) end.
+  match i with Hist cl pol ops => run cl (init pol) (located ops) end.
 
 (* ---------------------------------------------------------------- equality on observations *)
 
